@@ -746,13 +746,13 @@ pub fn body(case: &Case, out: &Shared) {
                     }
                     // Did this destroy call itself get a lock, and was the NAME `LOCK` unlinked (by an
                     // earlier destroy_database, after releasing its own lock) between the owner's
-                    // grant and this one? Then the two hold locks on two different inodes: that is
+                    // grant and this one (in either order)? Then the two hold locks on two different inodes: that is
                     // the known finding (unlink after unlock), seen through a second destroy call
                     // instead of a second open - it carries the known finding's qualifier. Without
                     // such an unlink the destroy call removed files while somebody else validly held
                     // the one lock file, which stands on its own.
                     let own_grant = grants.iter().find(|(s, t)| *t == *dt && *s > *d0 && *s < *m).map(|(s, _)| *s);
-                    let unlinked_between = own_grant.map(|dg| muts.iter().any(|(s, _, w2)| *w2 == "remove_lock_file" && *s > *gs && *s < dg)).unwrap_or(false);
+                    let unlinked_between = own_grant.map(|dg| muts.iter().any(|(s, _, w2)| *w2 == "remove_lock_file" && *s > (*gs).min(dg) && *s < (*gs).max(dg))).unwrap_or(false);
                     let detail = if unlinked_between { format!("{}|lock-name-unlinked-after-the-owners-grant|destroy-overlapped-open", what) } else { what.to_string() };
                     if unlinked_between {
                         with_out(out, |o| o.stats.probe("destroy_locked_a_fresh_lock_file_after_an_unlink"));
